@@ -12,3 +12,47 @@ CHECKS['C01'] = dict(
          'exit is permanent). K1: every observed run of the real engine (all feature regions) is accepted after every event.',
     note=COMMON_NOTE,
     technique='Coq theorem about an executable acceptor + conformance of real traces (runtime refinement check)')
+
+TECH = 'Coq theorem about an executable acceptor + conformance of real traces (runtime refinement check)'
+
+
+def _add(pid, text, note_extra='', technique=TECH):
+    CHECKS[pid] = dict(text=text, note=COMMON_NOTE + (' ' + note_extra if note_extra else ''), technique=technique)
+
+
+_add('C02',
+     'T1 C02_sound (Coq, induction over traces of any length): on every accepted trace the clock is monotone, each event runs at the '
+     'minimum of all dates scheduled in the previous snapshot (recomputed from raw attributes, not from the cached next_event_date), '
+     'no scheduled date lies in the past, and every record satisfies the ordering/arithmetic of its type. K1: every observed run of the '
+     'real engine is accepted frame by frame.',
+     'Open findings F-02a/F-02b/F-02c (pre-emption or pre-emptive shift change of a blocked customer; stale reneging date) are '
+     'recognised by frame-level triggers and reported as KNOWN-FINDING.')
+_add('C04',
+     'T1 C04_sound (Coq): on every accepted trace server<->customer attachment is a bijection in every snapshot, on-duty count = c, '
+     'an attachment persists until a release/interruption of that customer, service intervals of one server id are pairwise disjoint '
+     '(interval-packing lemma over Z) and the reported busy/total times equal the time attached to customers, hence utilisation in [0,1]. '
+     'K1: every observed run is accepted.')
+_add('C05',
+     'T1 C05_sound (Coq): in every accepted snapshot of a non-slotted finite-server node, a waiting customer implies every on-duty server '
+     'is busy; every positive wait ends in a frame containing a capacity-freeing event at that node. K1 on all regions.')
+_add('C06',
+     'T1 C06_sound (Coq): the acceptor replays the Spawn/Enter/Leave events of each frame from the previous populations; on accepted '
+     'traces no node exceeds servers+queue capacity, the system never exceeds system capacity, and C06_rejected_iff_full: an external '
+     'arrival is rejected iff its node or the system is full at its turn (batch members one by one). K1 on all regions without reroute.',
+     'Open finding F-06a (node_capacity of a scheduled node computed while c=0) is reported as KNOWN-FINDING.')
+_add('C07',
+     'T1 C07_sound (Coq): on accepted traces a finishing customer leaves at once iff its destination has space, otherwise is blocked '
+     'keeping its server; no blocked customer while its destination has space at a frame boundary; blocked queues are pure FIFO '
+     '(tail-append at Block, head-removal at Unblock) so customers enter a node in the order they became blocked to it; time_blocked = '
+     'exit - end. K1 on restricted networks (non-pre-emptive).')
+_add('C08',
+     'T1 C08_sound (Coq): every accepted service start chose a customer of the first non-empty waiting priority class, the earliest arrival '
+     '(FIFO) / latest (LIFO) / any (SIRO) of that class, evaluated on the waiting line captured at the moment of the choice. K1: every '
+     'start of every observed run.',
+     'Open finding F-08a (class change while waiting appends at the tail) is reported as KNOWN-FINDING.')
+_add('C12',
+     'Sched.v: closed form of the Schedule generator after k shift changes (sched_after), strict monotonicity of shift dates for '
+     'well-formed timetables (wf_dates_increasing); T1 C12_sound: every schedule/slot event of an accepted run is the one the cyclic '
+     'timetable prescribes (date, server count, slot size; zero-server shifts start nothing; interrupted customers restart first). '
+     'K1: observed runs + object-level differential of Schedule/Slotted against the extracted model.',
+     technique='Coq theorems about a hand-written model of the schedule generator + acceptor; differential and conformance against the real objects')
